@@ -21,7 +21,7 @@ def monitor(out, rpath, cases, chunk=20000):
             raise vlib.ToolError("Ranges monitor did not process every record: " + r.out[-1500:])
         for w in r.cases("FAILED"):
             rec = json.loads(part[w["line"] - 1])
-            names = ["in_bounds", "char_boundary", "focus_inside_full", "whole_tokens"]
+            names = ["in_bounds", "char_boundary", "focus_inside_full", "whole_tokens", "lsp_inside_client_document"]
             failed = [n for n, ok in zip(names, w["bad"]) if not ok]
             out.report({"what": "range", "kind": rec["kind"], "failed": failed[0] if failed else "?"},
                        {"record": rec, "case": cases[rec["ws"]] if rec["ws"] < len(cases) else None})
